@@ -19,7 +19,8 @@ import (
 // Streams: desc, desc-malformed (wrapDesc on one descriptor, nested), write (wrappingMetric.Write over
 // label slices with spare capacity / shared backing arrays, interleaved wrapped and unwrapped writes),
 // reg (Register/Unregister through wrappers compared with natively declared equivalents on a second
-// registry), gather (Gather unwrapped, wrapped, unwrapped again; Unregister through the same wrapper).
+// registry), gather (Gather unwrapped, wrapped, unwrapped again; Unregister through the same wrapper),
+// gather-broken (collectors emitting broken metrics in the middle, compared with a native equivalent).
 
 func main() { cli.Main("C13", runC13) }
 
@@ -872,6 +873,156 @@ func gatherStream(c *cli.Ctx, r *emit.Rng, n int) error {
 	return w.Flush()
 }
 
+// ---- stream gather-broken ----
+// A collector emits valid const metrics (one family each) with broken ones in the middle: metrics
+// that are invalid by themselves (NewInvalidMetric over NewInvalidDesc) and metrics that already
+// carry a label the wrapper adds. Gathered unwrapped, wrapped, unwrapped again, and through a
+// natively declared equivalent (prefixed names, label unions; the metrics that cannot be declared
+// natively are reported as invalid metrics at the same position).
+type bmetric struct {
+	name    string
+	labels  prometheus.Labels
+	val     float64
+	invalid bool
+}
+
+func gatherBrokenStream(c *cli.Ctx, r *emit.Rng, n int) error {
+	w := emit.NewWriter(c.Out, "C13", "gather-broken")
+	addPool := []string{"zone", "wa", "aa"}
+	for i := 0; i < n; i++ {
+		nl := 1 + r.Intn(2)
+		ls := make([]layer, nl)
+		allPrefix := ""
+		added := prometheus.Labels{}
+		dupAdded := false
+		for j := range ls {
+			if r.Chance(1, 3) {
+				ls[j] = layer{isPrefix: true, prefix: []string{"p_", "ns_", ""}[r.Intn(3)]}
+			} else {
+				m := prometheus.Labels{}
+				for k := 1 + r.Intn(2); k > 0; k-- {
+					m[addPool[r.Intn(len(addPool))]] = goodLv[r.Intn(2)]
+				}
+				ls[j] = layer{labels: m}
+			}
+			allPrefix = ls[j].prefix + allPrefix
+			for k, v := range ls[j].labels {
+				if _, dup := added[k]; dup {
+					dupAdded = true
+				}
+				added[k] = v
+			}
+		}
+		nm := 2 + r.Intn(5)
+		ms := make([]bmetric, nm)
+		ninv, nconf, validAfterBroken := 0, 0, false
+		seenBroken := false
+		for j := range ms {
+			bm := bmetric{name: fmt.Sprintf("m%d", j), labels: smallLabels(r, []string{"a", "b"}, 2), val: float64(10*i + j)}
+			switch {
+			case r.Chance(1, 5):
+				bm.invalid = true
+				ninv++
+				seenBroken = true
+			case r.Chance(1, 4):
+				bm.labels[addPool[r.Intn(len(addPool))]] = "9"
+			}
+			if !bm.invalid {
+				conf := dupAdded
+				for k := range added {
+					if _, ok := bm.labels[k]; ok {
+						conf = true
+					}
+				}
+				if conf {
+					nconf++
+					seenBroken = true
+				} else if seenBroken {
+					validAfterBroken = true
+				}
+			}
+			ms[j] = bm
+		}
+		checked := r.Chance(1, 3)
+		orig, nat := &listCollector{}, &listCollector{}
+		for _, bm := range ms {
+			if bm.invalid {
+				e := userErr{7}
+				orig.metrics = append(orig.metrics, prometheus.NewInvalidMetric(prometheus.NewInvalidDesc(e), e))
+				nat.metrics = append(nat.metrics, prometheus.NewInvalidMetric(prometheus.NewInvalidDesc(e), e))
+				continue
+			}
+			d := prometheus.NewDesc(bm.name, "h", nil, bm.labels)
+			orig.metrics = append(orig.metrics, prometheus.MustNewConstMetric(d, prometheus.GaugeValue, bm.val))
+			if checked {
+				orig.descs = append(orig.descs, d)
+			}
+			union := prometheus.Labels{}
+			conf := dupAdded
+			for k, v := range bm.labels {
+				union[k] = v
+			}
+			for k, v := range added {
+				if _, ok := union[k]; ok {
+					conf = true
+				}
+				union[k] = v
+			}
+			if conf { // cannot be declared natively: the native collector reports it as invalid
+				e := userErr{8}
+				nat.metrics = append(nat.metrics, prometheus.NewInvalidMetric(prometheus.NewInvalidDesc(e), e))
+				continue
+			}
+			nd := prometheus.NewDesc(allPrefix+bm.name, "h", nil, union)
+			nat.metrics = append(nat.metrics, prometheus.MustNewConstMetric(nd, prometheus.GaugeValue, bm.val))
+			if checked {
+				nat.descs = append(nat.descs, nd)
+			}
+		}
+		r0 := prometheus.NewRegistry()
+		if err := r0.Register(orig); err != nil {
+			w.Tag("gather-broken:skipped-orig-rejected", 1)
+			continue
+		}
+		f0, e0 := r0.Gather()
+		r1 := prometheus.NewRegistry()
+		viaRegisterer := r.Bool()
+		var wk int
+		if wrapPanics(orig.descs, ls) {
+			wk = 6
+		} else if viaRegisterer {
+			wk, _ = safeRegister(wrapRegisterer(r1, ls), orig)
+		} else {
+			wk, _ = safeRegister(r1, wrapCollector(orig, ls))
+		}
+		if wk != 0 {
+			w.Tag("gather-broken:skipped-rejected", 1)
+			continue
+		}
+		f1, e1 := r1.Gather()
+		f2, e2 := r0.Gather()
+		r3 := prometheus.NewRegistry()
+		if err := r3.Register(nat); err != nil {
+			w.Tag("gather-broken:skipped-native-rejected", 1)
+			continue
+		}
+		fn, en := r3.Gather()
+		tags := []string{fmt.Sprintf("gather-broken:invalid=%d", ninv), fmt.Sprintf("gather-broken:label-clash=%d", nconf)}
+		if checked {
+			tags = append(tags, "gather-broken:checked")
+		} else {
+			tags = append(tags, "gather-broken:unchecked")
+		}
+		if validAfterBroken {
+			tags = append(tags, "gather-broken:valid-after-broken")
+		}
+		w.Add(emit.Tup("4", emLayers(ls), emit.I(ninv), emFams(f0), emFams(f1), emFams(f2), emFams(fn),
+			emit.Tup(emit.B(e0 != nil), emit.B(e1 != nil), emit.B(e2 != nil), emit.B(en != nil))),
+			validAfterBroken, tags...)
+	}
+	return w.Flush()
+}
+
 func runC13(c *cli.Ctx) error {
 	r := emit.NewRng(c.Seed)
 	if err := descStream(c, "desc", r.Fork(), 800*c.Scale, 1, 40); err != nil {
@@ -886,5 +1037,8 @@ func runC13(c *cli.Ctx) error {
 	if err := regStream(c, r.Fork(), 400*c.Scale); err != nil {
 		return err
 	}
-	return gatherStream(c, r.Fork(), 300*c.Scale)
+	if err := gatherStream(c, r.Fork(), 300*c.Scale); err != nil {
+		return err
+	}
+	return gatherBrokenStream(c, r.Fork(), 300*c.Scale)
 }
